@@ -122,6 +122,7 @@ class Engine(OpsMixin, ExprMixin, CallMixin, StmtMixin, BuiltinsMixin):
         self.heap_reads = set()
         self._quant_cache = {}
         self._rx_cache = {}
+        self._strip_done = set()
         self.axioms = []
         self.case_splits = []
         self.abrupt = []
